@@ -46,6 +46,14 @@ fn pick<T: Clone + std::fmt::Debug + 'static>(items: &[T]) -> BoxedStrategy<T> {
 }
 
 pub const CAPS: &[i64] = &[8, 0, 1, 9, 300];
+/// capacity hints beyond the usual ones: around powers of two, and large
+pub const CAPS_WIDE: &[i64] = &[2, 3, 4, 5, 7, 15, 16, 17, 24, 31, 32, 33, 48, 63, 64, 65, 100, 127, 128, 129, 255, 256, 257, 511, 512, 513, 1000, 1023, 1024, 1025, 4096];
+
+/// capacity hint of a tree / list: the five standard ones half of the time, otherwise anything up
+/// to 70 or one of the values around powers of two
+pub fn caps() -> BoxedStrategy<i64> {
+    prop_oneof![5 => pick(CAPS), 3 => 0..=70i64, 2 => pick(CAPS_WIDE)].boxed()
+}
 
 // ------------------------------------------------------------------------------------------------
 // expiring-key family
@@ -86,7 +94,7 @@ pub fn key_table(u: i64, dmax: i64, advmax: i64, w: &[u32; 8]) -> Vec<OpSpec> {
 
 pub fn key_cases(prop: &'static str, mix: KeyMix) -> BoxedStrategy<Case> {
     let m = mix.clone();
-    (pick(&m.us), pick(CAPS), 0..10u8)
+    (pick(&m.us), caps(), 0..10u8)
         .prop_flat_map(move |(u, cap, edge)| {
             let table = key_table(u, m.dmax, m.advmax, &m.w);
             let fin = m.final_export.clone();
@@ -120,7 +128,7 @@ pub fn key_clear_cases(prop: &'static str, coll: &'static str, us: Vec<i64>, dma
 }
 
 pub fn key_clear_cases_sized(prop: &'static str, coll: &'static str, us: Vec<i64>, dmax: i64, advmax: i64, prefix: RangeInclusive<usize>) -> BoxedStrategy<Case> {
-    (pick(&us), pick(CAPS))
+    (pick(&us), caps())
         .prop_flat_map(move |(u, cap)| {
             let pre = key_table(u, dmax, advmax, &[40, 6, 6, 6, 6, 25, 0, 2]);
             let suf = key_table(u, dmax, advmax, &[30, 10, 10, 10, 14, 16, 2, 4]);
@@ -179,7 +187,7 @@ pub fn ord_table(u: i64, w: &[u32; 10]) -> Vec<OpSpec> {
 
 pub fn ord_cases(prop: &'static str, mix: OrdMix) -> BoxedStrategy<Case> {
     let m = mix.clone();
-    (pick(&m.us), pick(CAPS), pick(&m.vals))
+    (pick(&m.us), caps(), pick(&m.vals))
         .prop_flat_map(move |(u, cap, val)| {
             let m2 = m.clone();
             let ops: BoxedStrategy<Vec<RawOp>> = if m.phases <= 1 {
@@ -224,7 +232,7 @@ pub fn ord_clear_cases(prop: &'static str, family: &'static str, coll: &'static 
 }
 
 pub fn ord_clear_cases_sized(prop: &'static str, family: &'static str, coll: &'static str, vals: Vec<&'static str>, us: Vec<i64>, prefix: RangeInclusive<usize>) -> BoxedStrategy<Case> {
-    (pick(&us), pick(CAPS), pick(&vals))
+    (pick(&us), caps(), pick(&vals))
         .prop_flat_map(move |(u, cap, val)| {
             let steps = if family == "set" { 6 } else { 0 };
             let pre = ord_table(u, &[50, 10, 4, 1, 0, 2, 2, 2, 0, 0]);
@@ -407,7 +415,7 @@ pub fn seg_domain_cases(prop: &'static str) -> BoxedStrategy<Case> {
 /// Histories made mostly of monotone insertion runs (block sizes around powers of two included),
 /// interleaved with the given observation / removal mix (weights as in `ord_table`, `ins` unused).
 pub fn ord_runs_cases(prop: &'static str, family: &'static str, coll: &'static str, vals: Vec<&'static str>, w: [u32; 10]) -> BoxedStrategy<Case> {
-    (pick(&[400i64, 2000]), pick(CAPS), pick(&vals))
+    (pick(&[400i64, 2000]), caps(), pick(&vals))
         .prop_flat_map(move |(u, cap, val)| {
             let lens: Vec<i64> = vec![1, 2, 3, 5, 7, 8, 9, 15, 16, 17, 24, 30, 31, 32, 33, 35, 40, 48, 63, 64, 65, 70, 100, 127, 128, 129, 140];
             let run = (0..=u - 1, pick(&lens), 0..=1i64).prop_map(|(s, l, d)| RawOp::new(O_RUN, &[s, l, d])).boxed();
